@@ -461,7 +461,14 @@ func checkC18(r *Run) {
 			if fn, ok := info.Uses[sel.Sel].(*types.Func); ok && funcKey(fn) == "p9.registry.get" {
 				fd := r.L.enclosingDecl(sel)
 				if fd != nil {
-					getters = append(getters, fd.Name.Name)
+					// a private helper that is judged in its callers' context stands for them
+					if fo, ok := info.Defs[fd.Name].(*types.Func); ok && r.L.FuncOf(fo) != nil {
+						for _, root := range m.rootsOf(r.L.FuncOf(fo)) {
+							getters = append(getters, root.Decl.Name.Name)
+						}
+					} else {
+						getters = append(getters, fd.Name.Name)
+					}
 				}
 			}
 			return true
